@@ -15,7 +15,7 @@ Trace == JsonDeserialize(IOEnv.TRACE_FILE)
 VARIABLES l, bad
 Ev == Trace[l]
 Flag(clause) == Append(bad, [i |-> l, clause |-> clause])
-Sigmas == PPermsBetween(1, TPattLen)
+Sigmas == PPermsBetween(0, TPattLen)
 WordsOfPerm == [s \in Sigmas |-> {u \in PinWordsOf(Len(s)) : PinPerm(u) = s}]
 TInit == l = 1 /\ bad = <<>>
 TPerm == Ev.op = "Perm" /\ bad' = IF Ev.res = PinPerm(Ev.w) THEN bad ELSE Flag("DecodesToPinPermutation")
